@@ -210,8 +210,8 @@ HTTP_H = ["ReadPromise", "CreatePromise", "CreatePromiseAndTask", "CompletePromi
           "AcquireLock", "ReleaseLock", "HeartbeatLocks", "ClaimTask", "CompleteTask", "HeartbeatTasks"]
 def http(labels):
     out = [{"name": "VH_H_" + n, "pkg": HTTP, "labels": labels, "opts": dict(E2EOPT), "reach": ["reply", "kernel-error", "refused-by-front-end"]} for n in HTTP_H]
-    out += [{"name": "VH_H_" + n, "pkg": HTTP, "labels": labels, "tier": "thorough", "opts": {"slots.callbacks": 0, "slots.locks": 0, "slots.schedules": 1, "slots.promises": 1, "slots.tasks": 0, "faults": 0},
-             "reach": ["reply", "refused-by-front-end"]} for n in ["SearchPromises", "SearchSchedules"]]
+    out += [{"name": "VH_H_" + n, "pkg": HTTP, "labels": labels, "opts": {"slots.callbacks": 0, "slots.locks": 0, "slots.schedules": 1, "slots.promises": 1, "slots.tasks": 0, "faults": 0},
+             "reach": ["reply", "refused-by-front-end", "cursor-in-reply"]} for n in ["SearchPromises", "SearchSchedules"]]
     return out
 ROUTES = {"name": "VH_H_Routes", "pkg": HTTP, "labels": ["C20:", "C13:"]}
 reg["C13"]["harnesses"] += http(["C13:", "O2:"]) + [ROUTES]
@@ -393,3 +393,42 @@ reg["C13"]["harnesses"].append({"name": "VH_RT_New2", "pkg": "internal/app/subsy
 for k in ("C02", "C03", "C04", "C07", "C08", "C09", "C10"):
     if not any(h["name"] == "VH_C06_ExecuteAtomic" for h in reg[k]["harnesses"]):
         reg[k]["harnesses"] += [dict(h, reach=["committed", "failed"]) for h in store(["VH_C06_ExecuteAtomic", "VH_C06_ProcessError"], ["C06:"])]
+
+# ---- writer closure (after round six): every property about promise rows poses its invariants/guarantees on every
+# coroutine that writes promise rows, and every property about task rows on every coroutine that writes task rows -
+# lazily applied time-outs, schedule firings and the dispatch cycle's final write included
+NATOPT = {n: (SMALL, THOR) for n in PROMISE_H}
+NATOPT.update({n: (CBOPT, THOR) for n in CB_H})
+NATOPT.update({"VH_D_CreateRouted": (ROUTEOPT, THOR), "VH_D_CreateWithTask": (ROUTEOPT, THOR), "VH_D_Enqueue": (DISPOPT, DISPOPT_T), "VH_C07_Claim": (CLAIMOPT, THOR),
+               "VH_T_Complete": (TASKOPT, TASKOPT_T), "VH_T_Heartbeat": (TASKOPT, TASKOPT_T), "VH_T_TimeoutSweep": (TASKOPT, TASKOPT_T), "VH_S_Fire": (SCHEDOPT, SCHEDOPT_T)})
+PW = PROMISE_H + CB_H + ["VH_D_CreateRouted", "VH_D_CreateWithTask", "VH_S_Fire"]
+TW = ["VH_C07_Claim", "VH_T_Complete", "VH_T_Heartbeat", "VH_T_TimeoutSweep", "VH_D_Enqueue", "VH_D_CreateRouted", "VH_D_CreateWithTask"] + PROMISE_H + CB_H
+def ensure(prop, names, labels):
+    for n in names:
+        found = [h for h in reg[prop]["harnesses"] if h["name"] == n and h["pkg"] == CO]
+        if found:
+            for h in found:
+                h["labels"] = sorted(set(h["labels"] + labels))
+        else:
+            o, oT = NATOPT[n]
+            reg[prop]["harnesses"] += co([n], list(labels), opts=o, optsT=oT, reach=REACH_P, pgquick=False)
+ensure("C01", PW, ["O2:G1", "O2:I2"])
+ensure("C03", PW, ["O2:G1", "O2:I2", "C04:timeout-effect"])
+ensure("C04", PW, ["O2:I2", "C04:"])
+ensure("C05", PW, ["O2:I3", "O2:I4", "O2:G3"])
+ensure("C07", TW, ["O2:G2", "O2:I4"])
+ensure("C08", TW, ["O2:G2", "O2:I4"])
+for k in ("C01", "C03", "C04", "C05", "C07", "C08"):
+    reg[k]["explanation"] += "; its state invariant and transition guarantee are re-proved for every coroutine that writes the rows it speaks about (lazy time-outs, schedule firings, sweeps and the dispatch cycle included)"
+
+# ---- sixth round (variants G)
+# C14: the page and cursor a client receives are the kernel's (front-end half of "a cursor is present exactly when the page was full")
+reg["C14"]["harnesses"] += [h for h in http(["C14:", "C15:exactly-one", "C15:http-status"]) if "Search" in h["name"]] + grpc(["C14:", "C15:exactly-one"], ["SearchPromises", "SearchSchedules"])
+reg["C14"]["explanation"] += "; the search handlers of both front ends hand the client exactly the kernel's page and cursor, whatever limit parameter accompanies a cursor"
+reg["C14"]["assumptions"] = reg["C14"]["assumptions"] + FRONT_ASSUME
+reg["C06"]["harnesses"].append({"name": "VH_C06_Open", "pkg": SQ, "labels": ["C06:"], "reach": ["done"]})
+reg["C06"]["explanation"] += "; the real sqlite constructor runs over a database/sql.Open contract: the data source name it opens carries no durability-weakening connection parameter that the configured path did not carry (journal in memory/off, synchronous off, in-memory database)"
+reg["C06"]["outside"] = reg["C06"]["outside"] + ["PRAGMA statements other than through the data source name; the SQL engine honouring its journal"]
+reg["C16"]["harnesses"].append({"name": "VH_C16_ProcessTwoWorkers", "pkg": "internal/app/subsystems/aio/store", "labels": ["C16:"], "reach": ["done"]})
+reg["C16"]["explanation"] += "; two workers running store.Process at once are sequentialised at the blocking Execute call (A up to Execute, B's whole batch, A continues; batches of 1..2, optional earlier batch): each Execute receives exactly its own worker's transactions and each submission its own results"
+reg["C15"]["explanation"] += "; acceptance obligations (sat queries over all executions reaching the kernel): the boundary values of a well-formed request - zero and large leases and timeouts, each completion state, with and without idempotency key, both receiver forms - are accepted by each front end"
